@@ -31,7 +31,9 @@ pub const LANGS: &[L] = &[
     L { exts: &["xml"], line: &[], block: Some(("<!--", "-->")), star: false, code: &["<a>t</a>", "<b/>", ""], decoy: &["<block name=\"decoy\"></block>", "<c><![CDATA[ <block name='decoy'> ]]></c>"], header: "<root>\n", footer: "</root>\n", blank_between: false },
     L { exts: &["java"], line: &["//"], block: Some(("/*", "*/")), star: true, code: &["class A {}", ""], decoy: &["class B { String s = \"<block name='decoy'>\"; }"], header: "", footer: "", blank_between: false },
     L { exts: &["js", "jsx"], line: &["//"], block: Some(("/*", "*/")), star: true, code: &["let x = 1;", "function f() {}", ""], decoy: &["let s = \"<block name='decoy'>\";", "let t = `</block>`;"], header: "", footer: "", blank_between: false },
-    L { exts: &["ts", "d.ts", "tsx"], line: &["//"], block: Some(("/*", "*/")), star: true, code: &["let x: number = 1;", "function f(): void {}", ""], decoy: &["let s: string = \"<block name='decoy'>\";"], header: "", footer: "", blank_between: false },
+    // TypeScript proper knows angle-bracket type assertions (`<T>expr`); under the TSX grammar the same text opens a JSX element
+    L { exts: &["ts", "d.ts"], line: &["//"], block: Some(("/*", "*/")), star: true, code: &["let x: number = 1;", "function f(): void {}", "", "let el = <HTMLElement>document.body;", "const n = <number>(<unknown>x);"], decoy: &["let s: string = \"<block name='decoy'>\";"], header: "", footer: "", blank_between: false },
+    L { exts: &["tsx"], line: &["//"], block: Some(("/*", "*/")), star: true, code: &["let x: number = 1;", "function f(): void {}", ""], decoy: &["let s: string = \"<block name='decoy'>\";"], header: "", footer: "", blank_between: false },
     L { exts: &["kt", "kts"], line: &["//"], block: Some(("/*", "*/")), star: true, code: &["val x = 1", "fun f() {}", ""], decoy: &["val s = \"<block name='decoy'>\""], header: "", footer: "", blank_between: false },
     L { exts: &["Makefile", "makefile", "mk"], line: &["#", "#", "#!"], block: None, star: false, code: &["X = 1", "all:\n\techo hi", ""], decoy: &["Y = \"<block name='decoy'>\""], header: "", footer: "", blank_between: false },
     L { exts: &["md", "markdown"], line: &["[//]: # ("], block: Some(("<!--", "-->")), star: false, code: &["Some text.", "# Title", ""], decoy: &["Inline `<block name='decoy'>` code.", "```\n<!-- <block name='decoy'> -->\n```"], header: "", footer: "", blank_between: true },
